@@ -159,7 +159,7 @@ func scenario(name string, seq []string, stopAfter int, senders int, bound int, 
 		// (two senders = the variant whose client is built with debug = true as well)
 		u := uhppote.NewUHPPOTE(types.BindAddr{}, types.BroadcastAddr{}, types.ListenAddrFrom(netip.MustParseAddr("0.0.0.0"), lport), T, nil, senders == 2)
 		for c := 0; c < cycles; c++ {
-			r := &run{l: &listener{choose: bound == 0}}
+			r := &run{l: &listener{choose: bound == 0 || strings.Contains(name, "onerror-choice")}}
 			runs = append(runs, r)
 			base := vs.NowNs()
 			_ = base
@@ -426,6 +426,92 @@ func doubleStopScenario(how string, bound int) e1.Scenario {
 	return e1.Scenario{Name: "double-stop/" + how, Bound: bound, Body: body, Check: check, Opt: vs.Options{Horizon: 3000}}
 }
 
+// Listener values of other dynamic kinds than a pointer to a struct: a struct passed by value (methods
+// with value receivers, the recorder behind a pointer field), a map type and a func type. Listen takes
+// an interface; what kind of value implements it is the application's business.
+type valueListener struct{ rec *listener }
+
+func (l valueListener) OnConnected()            { l.rec.OnConnected() }
+func (l valueListener) OnEvent(s *types.Status) { l.rec.OnEvent(s) }
+func (l valueListener) OnError(err error) bool  { return l.rec.OnError(err) }
+
+type mapListener map[string]*listener
+
+func (l mapListener) OnConnected()            { l["rec"].OnConnected() }
+func (l mapListener) OnEvent(s *types.Status) { l["rec"].OnEvent(s) }
+func (l mapListener) OnError(err error) bool  { return l["rec"].OnError(err) }
+
+type funcListener func() *listener
+
+func (l funcListener) OnConnected()            { l().OnConnected() }
+func (l funcListener) OnEvent(s *types.Status) { l().OnEvent(s) }
+func (l funcListener) OnError(err error) bool  { return l().OnError(err) }
+
+type intListener int
+
+var intListenerRec *listener
+
+func (l intListener) OnConnected()            { intListenerRec.OnConnected() }
+func (l intListener) OnEvent(s *types.Status) { intListenerRec.OnEvent(s) }
+func (l intListener) OnError(err error) bool  { return intListenerRec.OnError(err) }
+
+func listenerKindScenario(kind string) e1.Scenario {
+	var rec *listener
+	var ret error
+	var done bool
+	body := func() {
+		rec = &listener{}
+		done, ret = false, nil
+		r := rec
+		var l uhppote.Listener
+		switch kind {
+		case "struct-value":
+			l = valueListener{rec: r}
+		case "map":
+			l = mapListener{"rec": r}
+		case "func":
+			l = funcListener(func() *listener { return r })
+		case "int":
+			intListenerRec = r
+			l = intListener(7)
+		default:
+			l = r
+		}
+		vs.Net().Env = &farm.Farm{}
+		u := uhppote.NewUHPPOTE(types.BindAddr{}, types.BroadcastAddr{}, types.ListenAddrFrom(netip.MustParseAddr("0.0.0.0"), lport), T, nil, false)
+		for k, class := range []string{"valid", "len63", "valid"} {
+			d := datagram(class, k)
+			vs.After(time.Duration(k+1)*T/10, func() { vs.Net().DeliverUDP("192.168.1.100:60000", fmt.Sprintf("192.168.1.2:%d", lport), d) })
+		}
+		q := make(chan os.Signal, 1)
+		vs.GoNamed("stopper", func() { vs.Sleep(5 * T / 10); vs.Send(q, os.Signal(os.Interrupt)) })
+		ret = u.Listen(l, q)
+		done = true
+	}
+	check := func(e *vs.Exec) (string, []e1.Viol) {
+		viols := e1.Generic(e)
+		if e.Abort != "" {
+			return e.Abort, viols
+		}
+		what := "the Listener is a " + kind
+		if !done || ret != nil {
+			viols = append(viols, e1.Viol{Key: "listener-kind/listener-did-not-return-nil", What: fmt.Sprintf("returned=%v err=%v (%s)", done, ret, what)})
+		}
+		kinds := ""
+		for _, c := range rec.calls {
+			kinds += c.kind + " "
+		}
+		if kinds != "connected event error event " {
+			viols = append(viols, e1.Viol{Key: "listener-kind/callbacks", What: fmt.Sprintf("callbacks [%s], expected [connected event error event] for valid, 63 bytes, valid (%s)", kinds, what)})
+		}
+		if open := vs.Net().OpenSockets(); len(open) > 0 {
+			viols = append(viols, e1.Viol{Key: "listener-kind/socket-leak", What: fmt.Sprint(open) + " (" + what + ")"})
+		}
+		return "listener-kind " + kinds, viols
+	}
+	return e1.Scenario{Name: "listener-kind/" + kind, Bound: 1, Body: body, Check: check, Opt: vs.Options{Horizon: 3000}}
+}
+
 // slowCallbackScenario: the application's OnEvent takes long (seconds, minutes - far longer than any
 // grace period a shutdown path might allow itself). Two events are read before the stop signal; the
 // callback is busy with the first. However long it takes, the listener neither gives up on the
@@ -603,6 +689,18 @@ func main() {
 			scenarios = append(scenarios, scenario(fmt.Sprintf("content-burst/%v/unbounded", seq), seq, 0, 1, -1, 1, true))
 		}
 	}
+	// what OnError returns (true / false, freely per call) while several rejected datagrams are already
+	// queued: every burst of two and three datagrams over four malformed classes and a valid event
+	{
+		set := []string{"len63", "bad-boolean", "serial-0", "wrong-function", "valid"}
+		for _, seq := range sequences(set, 3) {
+			if len(seq) >= 2 {
+				sc := scenario(fmt.Sprintf("onerror-choice-burst/%v", seq), seq, 0, 1, 1, 1, true)
+				sc.Deviations = 4
+				scenarios = append(scenarios, sc)
+			}
+		}
+	}
 	// long sequences with a small preemption bound: queues, batching or rate-dependent behaviour
 	// only show with many events in flight
 	long := make([]string, 12)
@@ -685,6 +783,10 @@ func main() {
 			b = 2
 		}
 		scenarios = append(scenarios, doubleStopScenario(how, b))
+	}
+	// Listener values of every dynamic kind
+	for _, k := range []string{"pointer", "struct-value", "map", "func", "int"} {
+		scenarios = append(scenarios, listenerKindScenario(k))
 	}
 	// callbacks that take seconds, minutes, hours
 	for _, d := range []time.Duration{3 * time.Second, 6 * time.Second, 31 * time.Second, 61 * time.Second, 11 * time.Minute, 25 * time.Hour} {
